@@ -143,11 +143,19 @@ class VPyFn(V):
         self.fn = fn
 
 
-class Effects:
-    """result of a stub/model that also updates its receiver and/or `&mut` arguments"""
+class VRefPlace(V):
+    """a `&mut` reference to a place (variable / field path), kept as the AST of the place expression:
+    reads evaluate the place, mutating method calls assign back to it"""
 
-    def __init__(self, ret, recv=None, args=None):
-        self.ret, self.recv, self.args = ret, recv, args or {}
+    def __init__(self, place_ast):
+        self.place = place_ast
+
+
+class Effects:
+    """result of a stub/model that also updates its receiver, `&mut` arguments, or arbitrary places"""
+
+    def __init__(self, ret, recv=None, args=None, places=None):
+        self.ret, self.recv, self.args, self.places = ret, recv, args or {}, places or []
 
 
 class VCount(V):
@@ -194,6 +202,11 @@ def ok(v):
 
 def err(v):
     return VEnum("Result", TAG("Result", "Err"), {"Err": [v]})
+
+
+def opaque_err():
+    """an error value the models do not describe further (kept an `Error` enum so that it merges with real ones)"""
+    return VEnum("Error", TAG("Error", "__opaque"), {})
 
 
 def opt(cond, v):
@@ -333,6 +346,9 @@ class Interp:
         self.loop_bound = 16
         self.buffer_cap = 8
         self.cfg_values = {}
+        self.keep_refs = False
+        self.current_call = None
+        self.last_self = None
         self.fns_executed = set()
         self.depth = 0
 
@@ -412,18 +428,25 @@ class Interp:
         fr = Frame(name)
         self.frames.append(fr)
         try:
-            v, _, pout = self.eval(body, env, pc)
+            if body.get("k") == "block":
+                v, envf, pout = self.exec_block(body, env, pc, {})
+            else:
+                v, envf, pout = self.eval(body, env, pc)
         finally:
             self.frames.pop()
             self.depth -= 1
         rets = list(fr.rets)
         if not z3.is_false(z3.simplify(pout)):
-            rets.append((pout, v))
+            rets.append((pout, v, envf.get("self")))
         if not rets:
             raise Unsupported("function %s never returns" % name)
         res = rets[-1][1]
-        for g, val in reversed(rets[:-1]):
+        self_out = rets[-1][2]
+        for g, val, sv in reversed(rets[:-1]):
             res = ite(g, val, res)
+            if sv is not None and self_out is not None:
+                self_out = ite(g, sv, self_out)
+        self.last_self = self.name_value(self_out) if self_out is not None else None
         return self.name_value(res)
 
     def name_value(self, v):
@@ -608,6 +631,8 @@ class Interp:
             v = env[p]
             if isinstance(v, VUninit):
                 raise Unsupported("use of uninitialised variable " + p)
+            if isinstance(v, VRefPlace) and not self.keep_refs:
+                return self.eval(v.place, env, pc)
             return v, env, pc
         if p == "None":
             return none(), env, pc
@@ -829,7 +854,7 @@ class Interp:
             v, env, pc = self.eval(e["expr"], env, pc)
         else:
             v = VUnit()
-        self.frames[-1].rets.append((pc, v))
+        self.frames[-1].rets.append((pc, v, env.get("self")))
         return VUnit(), env, z3.BoolVal(False)
 
     def e_try(self, e, env, pc):
@@ -838,12 +863,12 @@ class Interp:
             raise Unsupported("? on " + type(v).__name__)
         if v.ty == "Option":
             good = is_some(v)
-            self.frames[-1].rets.append((z3.And(pc, z3.Not(good)), none()))
+            self.frames[-1].rets.append((z3.And(pc, z3.Not(good)), none(), env.get("self")))
             pl = v.payload.get("Some")
         else:
             good = is_ok(v)
             ev = v.payload.get("Err", [VUnit()])[0]
-            self.frames[-1].rets.append((z3.And(pc, z3.Not(good)), err(ev)))
+            self.frames[-1].rets.append((z3.And(pc, z3.Not(good)), err(ev), env.get("self")))
             pl = v.payload.get("Ok")
         if pl is None:
             return VUninit(), env, z3.BoolVal(False)
@@ -856,6 +881,8 @@ class Interp:
     def assign_to(self, l, v, env, pc):
         """assignment to a variable, a field of a variable, or an element of a vector variable"""
         if l["k"] == "path" and l["path"] in env:
+            if isinstance(env[l["path"]], VRefPlace) and not isinstance(v, VRefPlace):
+                return self.assign_to(env[l["path"]].place, v, env, pc)
             env = dict(env)
             env[l["path"]] = v
             return VUnit(), env, pc
@@ -949,6 +976,8 @@ class Interp:
                 v, env, pc = self.eval(a, env, pc)
                 items.append(v)
             return VVec(items), env, pc
+        if name.split("::")[-1] in ("info", "debug", "warn", "error", "trace") and (name.startswith("log::") or "::" not in name):
+            return VUnit(), env, pc  # logging has no effect on the result
         if name in ("panic", "unreachable", "unimplemented", "todo"):
             self.panic(pc, "%s! at line %s" % (name, e.get("line")))
             return VUninit(), env, z3.BoolVal(False)
@@ -1115,6 +1144,22 @@ class Interp:
             raise Unsupported("call to unknown function %s (line %s)" % (p, e.get("line")))
         raise Unsupported("call of non-path expression")
 
+    def call_closure_env(self, clo, args, pc):
+        """run a closure and return the final values of its parameters (for `|x| x.push(..)`-style mutation)"""
+        env = dict(clo.env)
+        names = []
+        for p, a in zip(clo.params, args):
+            c, b = self.match_pat(p, a)
+            env.update(b)
+            names += list(b)
+        fr = Frame("<closure>")
+        self.frames.append(fr)
+        try:
+            _, env2, _ = self.eval(clo.body, env, pc)
+        finally:
+            self.frames.pop()
+        return [env2.get(n) for n in names]
+
     def call_closure(self, clo, args, pc):
         env = dict(clo.env)
         if len(clo.params) != len(args):
@@ -1127,7 +1172,19 @@ class Interp:
     def e_mcall(self, e, env, pc):
         recv_ast = e["recv"]
         name = e["method"]
-        recv, env, pc = self.eval(recv_ast, env, pc)
+        if recv_ast["k"] == "path":
+            self.keep_refs = True
+            try:
+                recv, env, pc = self.eval(recv_ast, env, pc)
+            finally:
+                self.keep_refs = False
+        else:
+            recv, env, pc = self.eval(recv_ast, env, pc)
+        if isinstance(recv, VRefPlace):
+            # method call through a `&mut` alias: operate on the place itself
+            recv_ast = recv.place
+            recv, env, pc = self.eval(recv_ast, env, pc)
+        self.current_call = (e, recv_ast)
         args = []
         for a in e["args"]:
             v, env, pc = self.eval(a, env, pc)
@@ -1143,10 +1200,16 @@ class Interp:
                         _, env, pc = self.assign_to(strip_ref(recv_ast), r.recv, env, pc)
                     for i, nv in r.args.items():
                         _, env, pc = self.assign_to(strip_ref(e["args"][i - 1]), nv, env, pc)
+                    for place, nv in r.places:
+                        _, env, pc = self.assign_to(strip_ref(place), nv, env, pc)
                     r = r.ret
                 return r, env, pc
             if key in self.fns:
-                return self.call(key, [recv] + args, pc), env, pc
+                r = self.call(key, [recv] + args, pc)
+                p0 = self.fns[key]["sig"]["params"][:1]
+                if p0 and p0[0].get("mut_ref") and self.last_self is not None:
+                    _, env, pc = self.assign_to(strip_ref(recv_ast), self.last_self, env, pc)
+                return r, env, pc
         # mutating String methods update the receiver variable
         if name in ("push_str", "push") and isinstance(recv, VStr):
             if recv_ast["k"] != "path" or recv_ast["path"] not in env:
@@ -1154,11 +1217,11 @@ class Interp:
             env = dict(env)
             env[recv_ast["path"]] = VStr(bstr.concat(recv.e, as_bstr(args[0]), self.ob(pc)))
             return VUnit(), env, pc
+        if name in ("extend_from_slice", "extend") and isinstance(recv, VStr):
+            _, env, pc = self.assign_to(strip_ref(recv_ast), VStr(bstr.named(bstr.concat(recv.e, as_bstr(args[0]), self.ob(pc)), self.side, "ext")), env, pc)
+            return VUnit(), env, pc
         if name == "push" and isinstance(recv, VVec):
-            if recv_ast["k"] != "path" or recv_ast["path"] not in env:
-                raise Unsupported("push on non-variable")
-            env = dict(env)
-            env[recv_ast["path"]] = vec_push(recv, args[0])
+            _, env, pc = self.assign_to(strip_ref(recv_ast), vec_push(recv, args[0]), env, pc)
             return VUnit(), env, pc
         tname = type(recv).__name__
         key = (tname, name)
@@ -1331,9 +1394,13 @@ class Interp:
 
 
 def strip_ref(ast):
-    while ast["k"] in ("ref",) or (ast["k"] == "unary" and ast["op"] == "*"):
-        ast = ast["expr"]
-    return ast
+    while True:
+        if ast["k"] == "ref" or (ast["k"] == "unary" and ast["op"] == "*"):
+            ast = ast["expr"]
+        elif ast["k"] == "mcall" and ast["method"] in ("as_mut_slice", "as_mut", "as_slice", "borrow_mut") and not ast["args"]:
+            ast = ast["recv"]
+        else:
+            return ast
 
 
 def vec_push(vec, item):
@@ -1702,8 +1769,9 @@ def m_opt_and_then(I, o, args, pc, e):
 
 def m_opt_ok_or_else(I, o, args, pc, e):
     pl = o.payload.get("Some")
+    ev = args[0] if args and isinstance(args[0], VEnum) else opaque_err()
     return VEnum("Result", z3.If(is_some(o), TAG("Result", "Ok"), TAG("Result", "Err")),
-                 {"Ok": pl if pl is not None else [VUninit()], "Err": [VUnit()]})
+                 {"Ok": pl if pl is not None else [VUninit()], "Err": [ev]})
 
 
 def _apply_fn_value(I, f, arg, pc):
@@ -1776,6 +1844,9 @@ METHODS = {
     ("VRsplitHead", "next"): lambda I, s, a, pc, e: some(s.last),
     ("VCount", "count"): lambda I, s, a, pc, e: VInt(s.n),
     ("VStr", "len"): m_len_str,
+    ("VStr", "as_mut_slice"): m_ident,
+    ("VStr", "as_slice"): m_ident,
+    ("VStr", "to_vec"): m_ident,
     ("VStr", "to_str"): lambda I, s, a, pc, e: some(s),
     ("VStr", "replace"): m_replace,
     ("VStr", "to_string"): m_ident,
@@ -1822,6 +1893,8 @@ METHODS = {
     ("Option", "is_none"): m_opt_is_none,
     ("Option", "map"): m_opt_map,
     ("Option", "and_then"): m_opt_and_then,
+    ("Option", "copied"): m_ident,
+    ("Option", "cloned"): m_ident,
     ("Option", "as_deref"): m_ident,
     ("Option", "as_ref"): m_ident,
     ("Option", "clone"): m_ident,
